@@ -624,15 +624,9 @@ func c02Describe(p stanza.Packet) (kind, id, from, to, typ string, h int) {
 	case stanza.SMEnabled:
 		return "enabled", v.Id, "", "", "", h
 	case stanza.SMResumed:
-		if v.H != nil {
-			h = int(*v.H)
-		}
-		return "resumed", v.PrevId, "", "", "", h
+		return "resumed", v.PrevId, "", "", "", hField(v, h)
 	case stanza.SMResume:
-		if v.H != nil {
-			h = int(*v.H)
-		}
-		return "resume", v.PrevId, "", "", "", h
+		return "resume", v.PrevId, "", "", "", hField(v, h)
 	case stanza.SMRequest:
 		return "r", "", "", "", "", h
 	case stanza.SMAnswer:
@@ -660,6 +654,28 @@ func (c *c02Case) effective() []c02Elem {
 
 // c02ErrClass reduces an error text to its shape (names and numbers removed), so that different root causes get
 // different class keys.
+// hField reads the field H of a stream-management element, whether it is declared as a number or as a pointer to one
+// (read by reflection, so that the harness still builds when that declaration changes).
+func hField(v interface{}, absent int) int {
+	f := reflect.ValueOf(v).FieldByName("H")
+	if !f.IsValid() {
+		return absent
+	}
+	if f.Kind() == reflect.Ptr {
+		if f.IsNil() {
+			return absent
+		}
+		f = f.Elem()
+	}
+	if f.CanUint() {
+		return int(f.Uint())
+	}
+	if f.CanInt() {
+		return int(f.Int())
+	}
+	return absent
+}
+
 func c02ErrClass(err error) string {
 	t := err.Error()
 	t = regexp.MustCompile("<[^>]{13,}>").ReplaceAllString(t, "<>") // short element names are kept: they tell the sites apart
